@@ -8,6 +8,7 @@ import (
 	"github.com/parquet-go/parquet-go"
 	"os"
 	"pqsim/core"
+	"pqsim/gen"
 	"pqsim/tape"
 	"testing"
 
@@ -101,4 +102,31 @@ func TestC18Modules(t *testing.T) {
 	for i, m := range mods {
 		fmt.Printf("%4d off=%6d len=%5d %s\n", i, m[0], m[1], label[m[0]])
 	}
+}
+
+func TestC09Refine(t *testing.T) {
+	if os.Getenv("PQSIM_C09DBG") == "" {
+		t.Skip()
+	}
+	sort := sortSpecs[10]
+	sortCols := gen.SortingColumns(sort)
+	cmp := keyedSchema.Comparator(sortCols...)
+	var rgs []parquet.RowGroup
+	for i := 0; i < 2; i++ {
+		typed, _ := keyedInput(1, "partial", i, 2, 1500+100*i, cmp)
+		var buf bytes.Buffer
+		w := parquet.NewGenericWriter[gen.Keyed](&buf, parquet.PageBufferSize(64), parquet.SortingWriterConfig(parquet.SortingColumns(sortCols...)))
+		w.Write(typed)
+		w.Close()
+		f, err := parquet.OpenFile(bytes.NewReader(buf.Bytes()), int64(buf.Len()))
+		if err != nil {
+			t.Fatal(err)
+		}
+		fmt.Println("input", i, "rows", len(typed), "k range", typed[0].K, typed[len(typed)-1].K, "rgs", len(f.RowGroups()))
+		oi, _ := f.RowGroups()[0].ColumnChunks()[0].OffsetIndex()
+		fmt.Println("  pages of k:", oi.NumPages())
+		rgs = append(rgs, f.RowGroups()...)
+	}
+	m, err := parquet.MergeRowGroups(rgs, parquet.SortingRowGroupConfig(parquet.SortingColumns(sortCols...)), keyedSchema)
+	fmt.Printf("merged type %T err %v rows %d\n", m, err, m.NumRows())
 }
